@@ -157,7 +157,8 @@ Inductive op :=
   | OMerge (sup p : str)
   | ORemoveEmpty
   | OCreateIndex
-  | OAddUnseen (other : list (list str)).
+  | OAddUnseen (other : list (list str))
+  | OReplace (gs : list (list str)).     (* the group list is edited from outside (groups dropped, proteins taken out) and re-indexed *)
 
 (* a raising operation leaves the object unchanged (Python raises before mutating here) *)
 Definition step (s : pgs) (o : op) : pgs :=
@@ -168,6 +169,7 @@ Definition step (s : pgs) (o : op) : pgs :=
   | ORemoveEmpty => remove_empty_groups s
   | OCreateIndex => create_index s
   | OAddUnseen other => fst (fst (add_unseen s other))
+  | OReplace gs => create_index (of_list gs)
   end.
 
 Definition run_ops (init : list (list str)) (ops : list op) : pgs :=
